@@ -1,5 +1,6 @@
 //! Behaviour beyond the listed properties: recorder for spec/trace/Trace_Extras.tla (`./check extras`).
-use lightmotif::abc::{Background, Dna, Protein, Symbol};
+use lightmotif::abc::{Alphabet, Background, ComplementableAlphabet, Dna, Protein, Pseudocounts, Symbol};
+use lightmotif::scan::Scanner;
 use lightmotif::dense::DenseMatrix;
 use lightmotif::num::*;
 use lightmotif::pli::{Pipeline, Score, Stripe};
@@ -90,8 +91,119 @@ where
     }
 }
 
+/// Alphabet facts: letters, rank <-> symbol <-> character round trips, rejected characters, default symbol,
+/// uniform background, scalar pseudocounts (and, for DNA, the complement table).
+fn alphabet<A: Abc>(rec: &mut Recorder, comp: Option<Vec<usize>>) {
+    let r = guarded(|| {
+        let letters: Vec<u8> = A::as_str().bytes().collect();
+        let syms = <A as Alphabet>::symbols();
+        let idx: Vec<usize> = syms.iter().map(|s| s.as_index()).collect();
+        let ascii: Vec<u8> = syms.iter().map(|s| s.as_ascii()).collect();
+        let back: Vec<i64> = letters.iter().map(|&b| <A as Alphabet>::Symbol::from_ascii(b).map(|s| s.as_index() as i64).unwrap_or(-1)).collect();
+        // every byte that is not an upper-case letter of the alphabet is rejected (the lower-case letters too)
+        let accepted: Vec<u8> = (0u8..=255).filter(|&b| <A as Alphabet>::Symbol::from_ascii(b).is_ok()).collect();
+        let nonascii = <A as Alphabet>::Symbol::from_char('\u{e9}').is_err() && <A as Alphabet>::Symbol::from_char('\u{4e2d}').is_err();
+        let bg = Background::<A>::uniform();
+        let dbg = Background::<A>::default();
+        let pc = Pseudocounts::<A>::from(0.5f32);
+        let pz = Pseudocounts::<A>::default();
+        json!({"letters": letters, "idx": idx, "ascii": ascii, "back": back, "accepted": accepted, "nonascii_rejected": nonascii,
+               "default": <A as Alphabet>::default_symbol().as_index(),
+               "uniform": bg.frequencies().iter().map(|&x| quant(x as f64, 4096.0)).collect::<Vec<_>>(),
+               "default_bg": dbg.frequencies().iter().map(|&x| quant(x as f64, 4096.0)).collect::<Vec<_>>(),
+               "bg_index": syms.iter().map(|&s| quant(bg[s] as f64, 4096.0)).collect::<Vec<_>>(),
+               "pseudo_half": pc.counts().iter().map(|&x| quant(x as f64, 4096.0)).collect::<Vec<_>>(),
+               "pseudo_default": pz.counts().iter().map(|&x| quant(x as f64, 4096.0)).collect::<Vec<_>>()})
+    });
+    emit(rec, "alphabet", r, json!({"ev":"alphabet","abc":A::NAME,"K":A::KK,"comp": comp.unwrap_or_default()}));
+}
+
+/// WeightMatrix::information_content of count data: the standard definition is sum_i sum_k f log2(f / b).
+fn info_content<A: Abc>(rec: &mut Recorder, rng: &mut impl Rng, n: usize) {
+    for it in 0..n {
+        let m = rng.gen_range(1..6);
+        let tot: u32 = rng.gen_range(2..20);
+        let rows: Vec<Vec<u32>> = (0..m).map(|_| { let mut r = vec![0u32; A::KK]; for _ in 0..tot { r[rng.gen_range(0..A::KK - 1)] += 1; } r }).collect();
+        let (pn, pd): (i64, i64) = [(1, 1), (1, 2), (1, 4), (0, 1)][it % 4];
+        let r = guarded(|| {
+            let w = counts_of::<A>(&rows).to_freq(pn as f32 / pd as f32).to_weight(None);
+            json!({"ic": quant(w.information_content() as f64, 1024.0)})
+        });
+        let mut pnv = vec![pn; A::KK]; pnv[A::KK - 1] = 0;
+        emit(rec, "info_content", r, json!({"ev":"info_content","K":A::KK,"m":rows,"pn":pnv,"pd":pd}));
+    }
+}
+
+/// Scanner defaults and builder: without `threshold()` the threshold is 0, without `block_size()` blocks of 256 rows; the
+/// hits are the positions scoring >= the threshold, whatever the order of the builder calls and whether or not an own
+/// score buffer is supplied.
+fn scanner_defaults(rec: &mut Recorder, rng: &mut impl Rng, n: usize) {
+    for it in 0..n {
+        let l = rng.gen_range(0..200);
+        let m = rng.gen_range(1..8);
+        let ranks = random_ranks::<Dna>(rng, l, 0.03);
+        let cells = random_pssm::<Dna>(rng, m, 0.0, true, 12);
+        let variant = it % 4;
+        let thr4: i64 = rng.gen_range(-8..24);
+        let res = guarded(|| {
+            let pssm = build_pssm::<Dna>(&cells);
+            let mut seq: StripedSequence<Dna, U32> = Pipeline::<Dna, _>::generic().stripe(Dna::syms(&ranks));
+            seq.configure(&pssm);
+            let mut buf = lightmotif::scores::StripedScores::<f32, U32>::empty();
+            let mut sc = Scanner::new(&pssm, &seq);
+            match variant {
+                0 => {}
+                1 => { sc.block_size(3).threshold(thr4 as f32 / 4.0); }
+                2 => { sc.threshold(thr4 as f32 / 4.0).block_size(1); }
+                _ => { sc.scores(&mut buf).threshold(thr4 as f32 / 4.0); }
+            }
+            let mut hits: Vec<(usize, Value)> = Vec::new();
+            for h in sc.by_ref().take(l + 2) { hits.push((h.position(), grid(h.score(), GS))); }
+            hits.sort_by_key(|x| x.0);
+            json!({"hits": hits.iter().map(|(p, s)| json!([p, s])).collect::<Vec<_>>()})
+        });
+        emit(rec, "scanner_defaults", res, json!({"ev":"scanner_defaults","K":5,"seq":ranks,"pssm":cells,"thr": if variant == 0 { 0 } else { thr4 },"variant":variant}));
+    }
+}
+
+/// EncodedSequence / StripedSequence as containers: length, emptiness, iteration order, text, position indexing,
+/// look-ahead rows after configure.
+fn sequence_api<A: Abc>(rec: &mut Recorder, rng: &mut impl Rng, n: usize)
+where
+    Pipeline<A, lightmotif::pli::dispatch::Dispatch>: Stripe<A, U32>,
+{
+    for it in 0..n {
+        let l = if it < 3 { it } else { rng.gen_range(0..150) };
+        let ranks = random_ranks::<A>(rng, l, 0.05);
+        let w = rng.gen_range(0..9usize);
+        let r = guarded(|| {
+            let text: String = ranks.iter().map(|&x| A::sym(x).as_char()).collect();
+            let enc = EncodedSequence::<A>::encode(&text).unwrap();
+            let parsed: EncodedSequence<A> = text.parse().unwrap();
+            let mut st: StripedSequence<A, U32> = enc.to_striped();
+            st.configure_wrap(w);
+            let by_index: Vec<usize> = (0..st.len()).map(|i| st[i].as_index()).collect();
+            json!({"len": enc.len(), "empty": enc.is_empty(), "iter": enc.iter().map(|s| s.as_index()).collect::<Vec<_>>(),
+                   "text_back": enc.to_string() == text, "parse_same": parsed == enc,
+                   "slen": st.len(), "sempty": st.is_empty(), "wrap": st.wrap(), "by_index": by_index,
+                   "rows": st.matrix().rows(), "from_vec_same": EncodedSequence::<A>::new(A::syms(&ranks)) == enc})
+        });
+        emit(rec, "sequence_api", r, json!({"ev":"sequence_api","K":A::KK,"C":32,"seq":ranks,"w":w}));
+    }
+}
+
 pub fn record(rec: &mut Recorder, seed: u64, thorough: bool) {
     let mut r = rng(seed, 99);
+    alphabet::<Dna>(rec, Some(Dna::symbols().iter().map(|&s| <Dna as ComplementableAlphabet>::complement(s).as_index()).collect()));
+    alphabet::<Protein>(rec, None);
+    {
+        let k = if thorough { 200 } else { 50 };
+        info_content::<Dna>(rec, &mut r, k);
+        info_content::<Protein>(rec, &mut r, k / 2);
+        scanner_defaults(rec, &mut r, k);
+        sequence_api::<Dna>(rec, &mut r, k);
+        sequence_api::<Protein>(rec, &mut r, k / 2);
+    }
     let n = if thorough { 300 } else { 60 };
     campaign::<Dna>(rec, &mut r, n);
     campaign::<Protein>(rec, &mut r, n / 2);
